@@ -753,12 +753,31 @@ func (x *Exec) specialCallee(fr *Frame, st *State, in ssa.Instruction, callee *s
 			if callee.Name() == "Equal" {
 				return boolVal(eq), true
 			}
-			r := x.decls.Fresh("cmp", "Int")
-			st.assume(sAnd(sLe("(- 1)", r), sLe(r, "1"), sEq(sEq(r, "0"), eq)))
-			return intVal(r, types.Typ[types.Int]), true
+			return intVal(x.cmpBytesTerm(st, args[0], args[1], eq), types.Typ[types.Int]), true
 		}
 	}
 	return Val{}, false
+}
+
+// cmpBytesTerm: the result of bytes.Compare(a, b), in {-1, 0, 1}.  Lexicographic order on byte strings is a countable total order,
+// so it embeds into the reals: lexrank is an uninterpreted, injective, order-preserving function of the content.  Totality,
+// antisymmetry and transitivity of Compare then come from real arithmetic instead of axioms.
+func (x *Exec) cmpBytesTerm(st *State, a, b Val, eq string) string {
+	return x.cmpContentTerm(st, x.contentOf(st, a), x.contentOf(st, b), eq)
+}
+
+func (x *Exec) cmpContentTerm(st *State, ca, cb string, eq string) string {
+	x.decls.Fun("lexrank", []string{"Val"}, "Real")
+	x.decls.Fun("lexrank.inv", []string{"Real"}, "Val")
+	x.decls.Pat("app:lexrank", func(args []string) string {
+		return sEq("(lexrank.inv (lexrank "+args[0]+"))", args[0]) // injective
+	})
+	ra, rb := "(lexrank "+ca+")", "(lexrank "+cb+")"
+	if eq != "" {
+		st.assume(sEq(sEq(ra, rb), eq))
+	}
+	// a term, not a fresh symbol: inside quantifier bodies (frozen states) an assumption about a fresh symbol would be lost
+	return sIte("(< "+ra+" "+rb+")", "(- 1)", sIte(sEq(ra, rb), "0", "1"))
 }
 
 // bytesEq: content equality of two byte slices as a fresh proposition p with
